@@ -1,5 +1,6 @@
 import UsualProofs.C04.Ends
 import UsualProofs.C04.RoundTrip
+import UsualProofs.C04.RoundTripB
 /-! # Property C04 — internal regex: POSIX leftmost-longest matching
 
 Level of this property: **exploration with a proved oracle**.  The theorems below are about the
@@ -91,32 +92,57 @@ example : (llmatch { s := #[98, 65], icase := true } (.chr 97)).isSome = true :=
 `MAX_COUNT`, fewer than `MAX_GROUPS` groups) the text `renderERE r` compiles, without error, to
 the tree itself (literals case-folded under REG_ICASE) and `re_nsub` = number of groups.
 
-Full statement (not proved; covered at run time by the `t` ops of the correspondence run,
-which also exercise BRE, and by the differential run of `compile` against `usual_regcomp`):
+Full statement (not proved; bracket expressions are covered by the differential run of
+`compile` against `usual_regcomp`, which parses the generator's bracket source text on both
+sides, and the non-bracket part at run time by the `t` ops of the correspondence run):
 
   theorem parse_render (fl : PFlags) (r : Re) (h : wf r) :
       parseERE fl (renderERE r) = .ok (norm fl r, r.groups) ∧
       (altFree r → parseBRE fl (renderBRE r) = .ok (norm fl r, r.groups))
 
-where `wf` also admits bracket expressions `cls bm` (with a renderer from bitmaps to bracket
-syntax: ranges, named classes, negation, the `]`/`-`/`^` placement rules) and `norm` inserts the
-groups the BRE anchors need.  Missing: a bitmap→bracket renderer with its inversion proof
-(`op_class` is modelled and differentially tested, not inverted), and the BRE context rules
-(`*`, `^`, `$` literal-vs-operator) in the token-parser induction. -/
+where `wf` also admits bracket expressions `cls bm` with a renderer from bitmaps to bracket
+syntax (ranges, named classes, negation, the `]` / `-` / `^` placement rules) and `norm` inserts
+the groups that the grammar needs (alternation inside concatenation, BRE anchors in the middle).
+Missing: the bitmap→bracket renderer and its inversion proof (`op_class / get_map_token /
+fill_class` are modelled in `parseClass` and differentially tested, not inverted). -/
 theorem parse_render_ere_partial (fl : PFlags) (r : Re) (h : wfE r = true) :
     parseERE fl (renderERE r) = .ok (foldRe fl r, r.groups) :=
   parseERE_renderERE fl r h
 
+/-- the text `^(A|\(){2,5}|.+` -/
 example : wfE (.alt (.cat .bol (.rep (.group (.alt (.chr 65) (.chr 40))) 2 (some 5))) (.rep .any 1 none)) = true ∧
     renderERE (.alt (.cat .bol (.rep (.group (.alt (.chr 65) (.chr 40))) 2 (some 5))) (.rep .any 1 none))
-      = "^(A|\\(){2,5}|.+".toUTF8.toList ∧
-    parseERE { icase := true } "^(A|\\(){2,5}|.+".toUTF8.toList =
+      = [94, 40, 65, 124, 92, 40, 41, 123, 50, 44, 53, 125, 124, 46, 43] ∧
+    parseERE { icase := true } [94, 40, 65, 124, 92, 40, 41, 123, 50, 44, 53, 125, 124, 46, 43] =
       .ok (.alt (.cat .bol (.rep (.group (.alt (.chr 97) (.chr 40))) 2 (some 5))) (.rep .any 1 none), 1) := by
-  refine ⟨by decide, by decide, ?_⟩
+  have e : renderERE (.alt (.cat .bol (.rep (.group (.alt (.chr 65) (.chr 40))) 2 (some 5))) (.rep .any 1 none))
+      = [94, 40, 65, 124, 92, 40, 41, 123, 50, 44, 53, 125, 124, 46, 43] := by decide
+  refine ⟨by decide, e, ?_⟩
   have := parse_render_ere_partial { icase := true }
     (.alt (.cat .bol (.rep (.group (.alt (.chr 65) (.chr 40))) 2 (some 5))) (.rep .any 1 none)) (by decide)
-  have e : renderERE (.alt (.cat .bol (.rep (.group (.alt (.chr 65) (.chr 40))) 2 (some 5))) (.rep .any 1 none))
-      = "^(A|\\(){2,5}|.+".toUTF8.toList := by decide
+  rw [e] at this
+  exact this
+
+/-- Same for BRE (`parse_posix_basic`): trees without alternation in which `^` is the first and
+`$` the last item of a (sub)pattern (elsewhere they are literals in a BRE), `*` and `\{m,n\}`
+repetitions, `\( \)` groups.  The context rules of the C parser (`*` after `\(` or `^` is a
+literal, `^` is an anchor only at the start, `$` only before the end or `\)`) are part of the
+model and of this proof.  Bracket expressions: see `parse_render_ere_partial`. -/
+theorem parse_render_bre_partial (fl : PFlags) (r : Re) (h : wfB r = true) :
+    parseBRE fl (renderBRE r) = .ok (foldRe fl r, r.groups) :=
+  parseBRE_renderBRE fl r h
+
+/-- the text `^\(B*\)\{2,\}\*$` -/
+example : wfB (.cat .bol (.cat (.rep (.group (.rep (.chr 66) 0 none)) 2 none) (.cat (.chr 42) .eol))) = true ∧
+    renderBRE (.cat .bol (.cat (.rep (.group (.rep (.chr 66) 0 none)) 2 none) (.cat (.chr 42) .eol)))
+      = [94, 92, 40, 66, 42, 92, 41, 92, 123, 50, 44, 92, 125, 92, 42, 36] ∧
+    parseBRE { icase := true } [94, 92, 40, 66, 42, 92, 41, 92, 123, 50, 44, 92, 125, 92, 42, 36] =
+      .ok (.cat .bol (.cat (.rep (.group (.rep (.chr 98) 0 none)) 2 none) (.cat (.chr 42) .eol)), 1) := by
+  have e : renderBRE (.cat .bol (.cat (.rep (.group (.rep (.chr 66) 0 none)) 2 none) (.cat (.chr 42) .eol)))
+      = [94, 92, 40, 66, 42, 92, 41, 92, 123, 50, 44, 92, 125, 92, 42, 36] := by decide
+  refine ⟨by decide, e, ?_⟩
+  have := parse_render_bre_partial { icase := true }
+    (.cat .bol (.cat (.rep (.group (.rep (.chr 66) 0 none)) 2 none) (.cat (.chr 42) .eol))) (by decide)
   rw [e] at this
   exact this
 
@@ -128,7 +154,7 @@ theorem empty_iteration_then_nonempty :
   decide
 
 /-- REG_ICASE on bytes ≥ 0x80 (fix F22): a literal byte matches itself. -/
-theorem icase_high_byte_matches_itself (b : UInt8) (hb : b ≠ 0) :
+theorem icase_high_byte_matches_itself (b : UInt8) :
     llmatch { s := #[b], icase := true } (.chr b) = some (0, 1) := by
   rw [llmatch_spec]
   have hm : Matches { s := #[b], icase := true } (.chr b) 0 1 := by
@@ -141,12 +167,12 @@ theorem icase_high_byte_matches_itself (b : UInt8) (hb : b ≠ 0) :
   omega
 
 example : llmatch { s := #[0xe9], icase := true } (.chr 0xe9) = some (0, 1) :=
-  icase_high_byte_matches_itself 0xe9 (by decide)
+  icase_high_byte_matches_itself 0xe9
 
 /-- Interval counts above the limit are malformed (fix F23: no 32-bit wrap of the count):
 `a{4294967297}` is rejected with REG_BADBR by the parser model. -/
 theorem count_wrap_rejected :
-    parseERE {} "a{4294967297}".toUTF8.toList = .error .badbr := by
-  decide
+    parseERE {} [97, 123, 52, 50, 57, 52, 57, 54, 55, 50, 57, 55, 125] = .error .badbr := by
+  rfl
 
 end UsualProps.C04
